@@ -12,6 +12,9 @@
    reachable_any nattrs st     st is the state after ANY history (updates with arbitrary, also out-of-order, timestamps,
                                pops, cleanups at arbitrary clock values, callback registration, assignments of a new TTL
                                to `tracker.ttl_in_seconds` (OpSetTtl), `tracker.stream_is_ordered = False` (OpUnordered)),
+                               calls of the public insert_or_update() (OpInsertOrUpdate: no ordering check, no cleanup();
+                               in ORDERED mode with a timestamp that is not older than a track -- `op_ok`, the caller's
+                               obligation on that route, without which the unchanged code leaves the table unsorted),
                                starting in either mode with any TTL, WHATEVER the subscribers did -- including operations
                                left by their exceptions (each operation with an environment that satisfies env_ok).
    t_ttl st = Some T           T is the TTL in force when the operation in question starts (cleanup() reads
